@@ -65,13 +65,16 @@ Definition common_attrs (cls : list str) (c : common) : list (str * str) :=
   ++ (match style_str (c_styles c) with [] => [] | st => [(s_style, st)] end)
   ++ opt_attr s_id (c_id c).
 
-Record label := mkLabel { l_c : common; l_link : option str; l_target : option str; l_text : str; l_tip : option (common * str) }.
+(* l_markup = Some kids: the text is an Html object (markup, written as it is) whose content is the rendering of kids *)
+Record label := mkLabel { l_c : common; l_link : option str; l_target : option str; l_text : str; l_tip : option (common * str);
+                          l_markup : option (list hnode) }.
 
 Definition s_a := Eval compute in str_of "a".
 Definition s_button := Eval compute in str_of "button".
 Definition s_label := Eval compute in str_of "label".
 Definition s_label_container := Eval compute in str_of "label-container".
 Definition s_html_tooltip := Eval compute in str_of "tooltip".
+Definition s_html_content := Eval compute in str_of "html-content".
 Definition s_label_group := Eval compute in str_of "label-group".
 Definition s_progress_bar := Eval compute in str_of "progress-bar".
 Definition s_shade := Eval compute in str_of "shade".
@@ -94,7 +97,7 @@ Definition tooltip_el (c : common) (content : str) : hnode := El s_span [] (comm
 Definition label_el (l : label) : hnode :=
   let e := El (match l_link l with Some _ => s_a | None => s_span end) []
               (common_attrs [s_label] (l_c l) ++ opt_attr s_href (l_link l) ++ opt_attr s_target (l_target l))
-              [Txt (l_text l)] in
+              (match l_markup l with Some kids => kids | None => [Txt (l_text l)] end) in
   match l_tip l with
   | None => e
   | Some (tc, content) => El s_div [] (class_attr [s_label_container]) [e; tooltip_el tc content]
@@ -106,6 +109,7 @@ Record tab := mkTab { t_label : label; t_css : list str; t_id : option str; t_co
 Inductive ctl :=
 | CLabel (l : label)
 | CTooltip (c : common) (content : str)
+| CTooltipMarkup (c : common) (kids : list hnode)        (* Tooltip whose content is an Html object: class html-content, markup as it is *)
 | CGroup (c : common) (name : option label) (labels : list label)
 | CProgress (subs : list (common * str)) (l : label)          (* sub-progress: its common part (styles include width) and camel_to_snake(name) *)
 | CTabs (c : common) (isleft : bool) (selected : Z) (root_id bid cid : option str) (tabs : list tab).
@@ -121,6 +125,7 @@ Definition ctl_node (c : ctl) : hnode :=
   match c with
   | CLabel l => label_el l
   | CTooltip cm content => tooltip_el cm content
+  | CTooltipMarkup cm kids => El s_span [] (common_attrs [s_html_tooltip; s_html_content] cm) kids
   | CGroup cm name labels =>
       El s_div [] (common_attrs [s_label_group] cm) ((match name with Some n => [label_el n] | None => [] end) ++ map label_el labels)
   | CProgress subs l =>
@@ -140,13 +145,25 @@ Definition ctl_node (c : ctl) : hnode :=
          else [El s_tr [] [] [El s_td [] [] [bgroup]]; El s_tr [] [] [El s_td [] [] [cgroup]]])
   end.
 
+Definition label_markup (l : label) : list hnode := match l_markup l with Some k => k | None => [] end.
+Definition ctl_markup (c : ctl) : list hnode :=
+  match c with
+  | CLabel l => label_markup l
+  | CTooltip _ _ => []
+  | CTooltipMarkup _ kids => kids
+  | CGroup _ name labels => (match name with Some n => label_markup n | None => [] end) ++ flat_map label_markup labels
+  | CProgress _ l => label_markup l
+  | CTabs _ _ _ _ _ _ tabs =>
+      flat_map (fun t => label_markup (t_label t) ++ match t_content t with TCLabel l => label_markup l | TCValue _ _ => [] end) tabs
+  end.
+
 Definition control_tags : list str := [s_a; s_button].
 Definition control_attrs : list str := [s_id; s_href; s_target; s_onclick].
 
 (* ---------------------------------------------------------------------------------------------- *)
 (* wire: (5 ctl) -> (5 rendered);  (6 s rest) -> (6 escape_js lexed?) ; (7 id s) -> (7 script) ; (8 id (tree...)) -> (8 script)
-   common ::= (id? (css ...) ((k v) ...)) ; label ::= (common link? target? text tip?) ; tip ::= (common content)
-   ctl ::= (0 label) | (1 common content) | (2 common label? (label ...)) | (3 ((common cname) ...) label)
+   common ::= (id? (css ...) ((k v) ...)) ; label ::= (common link? target? text tip? (tree ...)?) ; tip ::= (common content)
+   ctl ::= (0 label) | (1 common content) | (5 common (tree ...)) | (2 common label? (label ...)) | (3 ((common cname) ...) label)
          | (4 common left selected root? bid? cid? ((label (css ...) id? content) ...)) ; content ::= (0 label) | (1 opts pv)       *)
 Definition d_common (t : tr) : option common :=
   match t with
@@ -155,9 +172,9 @@ Definition d_common (t : tr) : option common :=
   end.
 Definition d_label (t : tr) : option label :=
   match t with
-  | L [c; lk; tg; tx; tip] =>
+  | L [c; lk; tg; tx; tip; mk] =>
       do c' <- d_common c; do lk' <- dopt dstr lk; do tg' <- dopt dstr tg; do tx' <- dstr tx;
-      do tip' <- dopt (dpair d_common dstr) tip; Some (mkLabel c' lk' tg' tx' tip')
+      do tip' <- dopt (dpair d_common dstr) tip; do mk' <- dopt (dlist (d_hnode 100)) mk; Some (mkLabel c' lk' tg' tx' tip' mk')
   | _ => None
   end.
 Definition d_tab (t : tr) : option tab :=
@@ -170,6 +187,7 @@ Definition d_ctl (t : tr) : option ctl :=
   match t with
   | L [I 0%Z; l] => do l' <- d_label l; Some (CLabel l')
   | L [I 1%Z; c; s] => do c' <- d_common c; do s' <- dstr s; Some (CTooltip c' s')
+  | L [I 5%Z; c; ks] => do c' <- d_common c; do ks' <- dlist (d_hnode 100) ks; Some (CTooltipMarkup c' ks')
   | L [I 2%Z; c; n; ls] => do c' <- d_common c; do n' <- dopt d_label n; do ls' <- dlist d_label ls; Some (CGroup c' n' ls')
   | L [I 3%Z; subs; l] => do subs' <- dlist (dpair d_common dstr) subs; do l' <- d_label l; Some (CProgress subs' l')
   | L [I 4%Z; c; lf; sel; root; bid; cid; tabs] =>
